@@ -68,6 +68,55 @@ def _speaks_of_a_copy(ctx, fn, tests, SZ):
     return False
 
 
+def handover_values(ctx, nx):
+    """What next_file() returns when it DID open another file: a set of (none-ness, truthiness, text) with none-ness in
+    none | not-none | ?, truthiness in truthy | falsy | size | ?.  `size` is a byte count of a file (os.path.getsize, a stat
+    size, len of what was read): never None, zero exactly for an empty file."""
+    nf = None
+    for c_ in ([nx.cls] + ctx.prog.mro(nx.cls)) if nx.cls is not None else []:
+        if "next_file" in c_.methods:
+            nf = c_.methods["next_file"]
+            break
+    if nf is None:
+        return {("?", "?", "next_file not found")}
+    gnf = C.cfg_of(nf)
+    opens = [C.stmt_node(ctx, nf, n) for n in own_nodes(nf.node) if isinstance(n, ast.Call) and (C.is_ext_call(ctx, n, nf, ("builtins.open",)) or norm(n.func).endswith("_open"))]
+    opens = [o for o in opens if o is not None]
+    out = set()
+    rets = [n for n in own_nodes(nf.node) if isinstance(n, ast.Return)]
+
+    def size_call(v):
+        return isinstance(v, ast.Call) and (C.is_ext_call(ctx, v, nf, ("os.path.getsize", "builtins.len")) or norm(v.func) in ("os.path.getsize", "len"))
+
+    def kind(v, depth=0):
+        if v is None or (isinstance(v, ast.Constant) and v.value is None):
+            return ("none", "falsy", "None")
+        if isinstance(v, ast.Constant):
+            return ("not-none", "truthy" if v.value else "falsy", repr(v.value))
+        if size_call(v) or (isinstance(v, ast.Attribute) and v.attr == "st_size"):
+            return ("not-none", "size", norm(v))
+        if isinstance(v, ast.Name) and depth < 3:
+            vals = [p_ for w_, p_ in ctx.res.bindings(nf).get(v.id, [])]
+            ws = [w_ for w_, p_ in ctx.res.bindings(nf).get(v.id, [])]
+            if len(vals) == 1 and ws == ["value"]:
+                return kind(vals[0], depth + 1)
+        if isinstance(v, ast.Subscript) and isinstance(v.value, ast.Attribute) and isinstance(v.value.value, ast.Name) and v.value.value.id == nf.self_name and nf.cls is not None:
+            # an element of a list the class fills with byte counts:  self.sizes = [os.path.getsize(p) for p in self.paths]
+            stores = [a for m in nf.cls.methods.values() for a in own_nodes(m.node) if isinstance(a, ast.Assign) and any(norm(t) == "%s.%s" % (m.self_name, v.value.attr) for t in a.targets)]
+            other = [a for m in nf.cls.methods.values() for a in own_nodes(m.node) if isinstance(a, (ast.AugAssign, ast.Call)) and norm(a.target if isinstance(a, ast.AugAssign) else a.func).startswith("%s.%s" % (m.self_name, v.value.attr))]
+            if stores and not other and all(isinstance(a.value, (ast.ListComp, ast.List)) and all(size_call(e) for e in ([a.value.elt] if isinstance(a.value, ast.ListComp) else a.value.elts)) for a in stores):
+                return ("not-none", "size", norm(v))
+        return ("?", "?", norm(v)[:40])
+    for r in rets:
+        rn = C.stmt_node(ctx, nf, r)
+        if rn is None:
+            continue
+        if opens and not any(rn in gnf.reachable(o) for o in opens):
+            continue        # a return no opened file leads to: the list was exhausted
+        out.add(kind(r.value))
+    return out or {("?", "?", "no return after an open")}
+
+
 def end_of_iteration(ctx, rid, nx):
     """Every `raise StopIteration` of the v1 hasher is the exhaustion of the last file (empty read and no next file)."""
     # zero read -> next file or stop, inside a loop
@@ -110,10 +159,32 @@ def end_of_iteration(ctx, rid, nx):
             return {ast.GtE: True, ast.Lt: False}.get(op)
         return None
 
+    found_vals = handover_values(ctx, nx)
+    world = {"unknown": None}
+
     def another_file(x):
-        """next_file() found another file"""
-        if isinstance(x, ast.Call) and isinstance(x.func, ast.Attribute) and x.func.attr == "next_file":
-            return True
+        """next_file() found another file: the truth of a test of what it returns, evaluated over the values it returns when
+        it did open a file (True in the pinned tree; a byte count - which is 0 for an empty file - or a record elsewhere)"""
+        def is_call(e):
+            return isinstance(e, ast.Call) and isinstance(e.func, ast.Attribute) and e.func.attr == "next_file"
+        if is_call(x):
+            ts = {k[1] for k in found_vals}
+            if ts == {"truthy"}:
+                return True
+            if ts == {"falsy"}:
+                return False
+            if "?" in ts:
+                world["unknown"] = "what next_file() returns when it opened a file (%s) is not a constant nor a byte count" % ", ".join(sorted(k[2] for k in found_vals if k[1] == "?"))
+            return None         # a byte count: zero for an empty file, non-zero otherwise - both happen
+        if isinstance(x, ast.Compare) and len(x.ops) == 1 and is_call(x.left) and isinstance(x.comparators[0], ast.Constant) and x.comparators[0].value is None \
+                and isinstance(x.ops[0], (ast.Is, ast.IsNot, ast.Eq, ast.NotEq)):
+            ns = {k[0] for k in found_vals}
+            if ns == {"not-none"}:
+                return isinstance(x.ops[0], (ast.IsNot, ast.NotEq))
+            if ns == {"none"}:
+                return isinstance(x.ops[0], (ast.Is, ast.Eq))
+            world["unknown"] = "whether next_file() returns None when it opened a file is not established"
+            return None
         return None
     # exhaustion signalled by a callee: a method of the class in which `next(it)` (no default) or `raise StopIteration` can
     # run outside a handler that catches it; the signal leaves __next__ from the call site
@@ -168,7 +239,13 @@ def end_of_iteration(ctx, rid, nx):
             if _speaks_of_a_copy(ctx, nx, [C.test_expr(b) for b, _ in g.control_deps(rn) if C.test_expr(b) is not None], SZ):
                 unread = True        # the tests that lead to this raise speak of a copy of the count (an alias, a field of a local record)
             z = any(t in ("%s == 0" % SZ, "not %s" % SZ) and lab == "true" for t, lab in deps)
-            nfc = any("next_file()" in t and ((t.startswith("not ") and lab == "true") or (not t.startswith("not ") and lab == "false")) for t, lab in deps)
+            nfc = False
+            for b_, lab_ in g.control_deps(rn):
+                te_ = C.test_expr(b_)
+                if te_ is not None and "next_file()" in norm(te_):
+                    tv_ = C.eval3(te_, another_file)
+                    if tv_ is not None and ("true" if tv_ else "false") != lab_:
+                        nfc = True       # with another file opened this branch is not taken
         if not (z and nfc):
             # every way of ending the iteration must be the exhaustion of the last file, not a count computed elsewhere
             ok = False
@@ -176,6 +253,9 @@ def end_of_iteration(ctx, rid, nx):
     if early is not None:
         raises = [early] + [r for r in raises if r is not early]
     whiles = [n for n in own_nodes(nx.node) if isinstance(n, ast.While)]
+    if not ok and world["unknown"]:
+        ctx.undecided(rid, nx, "%s; how the iteration ends is not decided" % world["unknown"], raises[0] if raises else nx.node)
+        return SZ
     if not ok and unread:
         ctx.undecided(rid, nx, "the tests that lead to `raise StopIteration` do not mention the byte count %r of the read this rule follows (it may have been copied into another variable); how the iteration ends is not decided" % SZ,
                       raises[0] if raises else nx.node)
@@ -653,7 +733,14 @@ def v1_hasher(ctx):
                     size_e = vals[0] if len(vals) == 1 and len(sd) == 1 else size_e
                 szf = lin_of(size_e, consts) if size_e is not None else None
                 stale = any(m is not None and m in ghp.reachable(d.node, avoiding={d.node}) and rn in ghp.reachable(m, avoiding={d.node}) and m is not d.node for m in grows)
-                if szf != want:
+                capped = isinstance(size_e, ast.Call) and isinstance(size_e.func, ast.Name) and size_e.func.id == "min" and not size_e.keywords \
+                    and any(lin_of(a_, consts) == want for a_ in size_e.args)
+                if capped:
+                    # min(what is missing, something else): never more than what is missing; whether it can be LESS than what
+                    # the file holds (bytes left behind when the next file is opened) depends on what the other bound is
+                    ctx.undecided("C01.6", hp, "continuation buffer is allocated with `%s` bytes: what is missing, capped by another quantity; that the file never holds more than that cap was not established" % norm(size_e)[:80],
+                                  d.stmt if d.stmt is not None else rd)
+                elif szf != want:
                     ctx.violated("C01.6", hp, "continuation buffer is allocated with %s bytes; must be %s" % (szf, want), d.stmt if d.stmt is not None else rd)
                 elif stale:
                     ctx.violated("C01.6", hp, "the continuation buffer is sized once (%s) but the piece grows before it is read into again: with three or more files in one piece the request is larger than what is missing and the piece is over-filled" % want,
